@@ -7,3 +7,6 @@ import Bw.Props.C19
 #print axioms Bw.Props.C19.fault_fails_closed
 #print axioms Bw.Props.C19.no_attr_no_request
 #print axioms Bw.Props.C19.requests_at_most_blocks
+#print axioms Bw.Props.C19.len_filterMap
+#print axioms Bw.Props.C19.requests_exact
+#print axioms Bw.Props.C19.request_of_block
